@@ -47,6 +47,11 @@ def rvalue (r : Row α) : α :=
   let q := lower r / upper r
   if q ≤ q then q else 0.0
 
+/-- `(lower / upper).fillna(0.0)` on given lower / upper values (`LoadHistogram.R`). -/
+def fillR (lo up : α) : α :=
+  let q := lo / up
+  if q ≤ q then q else 0.0
+
 /-- `_validate` for the `range`/`mean` input form: `from = mean - range/2.`, `to = mean + range/2.`. -/
 def fromRangeMean (rng mean cyc : α) : Row α := ⟨mean - rng / 2.0, mean + rng / 2.0, cyc⟩
 
@@ -171,28 +176,36 @@ structure Bin (α : Type) where
 def minA (a b : α) : α := if b < a then b else a
 def maxA (a b : α) : α := if a < b then b else a
 
-/-- What the source class `s` contributes to the target class `(tl, tr]`:
+/-- What a source class `s` of positive width contributes to the target class `(tl, tr]`:
 `hist.index.overlaps(interval)` (pandas: `s.l < tr ∧ tl < s.r`) selects the class, then
 `v * ((min(tr, s.r) - max(tl, s.l)) / s.length)`. -/
 def share (tl tr : α) (s : Bin α) : α :=
   if s.l < tr ∧ tl < s.r then s.v * ((minA tr s.r - maxA tl s.l) / (s.r - s.l)) else 0.0
 
-/-- `aggregate_hist(interval)`. -/
-def aggregate (src : List (Bin α)) (tl tr : α) : α :=
-  total (src.map (share tl tr))
+/-- What the source class `s` contributes to the target class `c = (lo, hi, isLast)` (see `classes`):
+a class of positive width is distributed linearly (`share`); a class of zero width (`index.length == 0`,
+pandas guarantees `left ≤ right`) holds its whole content at the point `s.r` and gives it to the class
+`np.histogram` puts that point in (`_add_point_classes`).  No division takes place for a zero-width class. -/
+def shareC (c : α × α × Bool) (s : Bin α) : α :=
+  if s.l < s.r then share c.1 c.2.1 s
+  else if inBin c.1 c.2.1 c.2.2 s.r then s.v else 0.0
 
-/-- Consecutive pairs of a break list = the classes of a gap-free binning. -/
+/-- Content of the target class `c` after re-binning: `aggregate_hist(interval)` plus the point classes inside. -/
+def aggregate (src : List (Bin α)) (c : α × α × Bool) : α :=
+  total (src.map (shareC c))
+
+/-- Consecutive pairs of a break list = the classes of a gap-free binning (`classes` without the flag). -/
 def pairs : List α → List (α × α)
   | b0 :: b1 :: rest => (b0, b1) :: pairs (b1 :: rest)
   | _ => []
 
 /-- `rebin_histogram(src, IntervalIndex.from_breaks(breaks))`: the new class contents. -/
 def rebin (src : List (Bin α)) (breaks : List α) : List α :=
-  (pairs breaks).map fun p => aggregate src p.1 p.2
+  (classes breaks).map (aggregate src)
 
 /-- The re-binned histogram as a list of classes again (so that it can be re-binned once more). -/
 def rebinBins (src : List (Bin α)) (breaks : List α) : List (Bin α) :=
-  (pairs breaks).map fun p => ⟨p.1, p.2, aggregate src p.1 p.2⟩
+  (classes breaks).map fun c => ⟨c.1, c.2.1, aggregate src c⟩
 
 /-- A histogram given by breaks and contents. -/
 def binsOf (breaks : List α) (vals : List α) : List (Bin α) :=
@@ -213,13 +226,13 @@ structure Cell (α : Type) where
   v : α
 
 /-- The code re-bins level by level (`groupby` the other level, `_do_rebin_histogram` along this one): what the
-cell gives to the target cell `(pl, pr] × (ql, qr]` is its first-level share, shared again along the second level. -/
-def share2 (pl pr ql qr : α) (c : Cell α) : α :=
-  share ql qr ⟨c.yl, c.yr, share pl pr ⟨c.xl, c.xr, c.v⟩⟩
+cell gives to the target cell `p × q` is its first-level share, shared again along the second level. -/
+def share2 (p q : α × α × Bool) (c : Cell α) : α :=
+  shareC q ⟨c.yl, c.yr, shareC p ⟨c.xl, c.xr, c.v⟩⟩
 
 /-- Two-dimensional re-bin to the breaks `bx` (first level) and `by` (second level): row-major contents. -/
 def rebin2 (cells : List (Cell α)) (bx bys : List α) : List (List α) :=
-  (pairs bx).map fun p => (pairs bys).map fun q => total (cells.map (share2 p.1 p.2 q.1 q.2))
+  (classes bx).map fun p => (classes bys).map fun q => total (cells.map (share2 p q))
 
 /-- `binning.levels[binning.names.index(name)]`: the target binning of a level is looked up by the level's NAME. -/
 def pickBreaks (name : String) (target : List (String × List α)) : List α :=
@@ -272,19 +285,23 @@ def present : List (OBin α) → List (Bin α)
 /-- pandas' `Interval.overlaps` for right-closed classes. -/
 def overlapsB (tl tr : α) (s : Bin α) : Bool := decide (s.l < tr) && decide (tl < s.r)
 
-/-- `aggregate_hist(interval)` with NaN handling: `occupied = hist.loc[overlaps].dropna()`; no occupied class →
-the default (`NaN` if `nan_default` else `0.0`), else the sum of the shares. -/
-def aggregateOpt (nanDefault : Bool) (src : List (OBin α)) (tl tr : α) : Option α :=
-  let occ := (present src).filter (overlapsB tl tr)
+/-- Does the source class `s` occupy the target class `c`?  Positive width: it overlaps; zero width: its point lies inside. -/
+def occupies (c : α × α × Bool) (s : Bin α) : Bool :=
+  if s.l < s.r then overlapsB c.1 c.2.1 s else inBin c.1 c.2.1 c.2.2 s.r
+
+/-- `aggregate_hist(interval)` with NaN handling: `occupied = hist.loc[overlaps].dropna()`; no occupied class (and no
+point class with a number inside) → the default (`NaN` if `nan_default` else `0.0`), else the sum of the shares. -/
+def aggregateOpt (nanDefault : Bool) (src : List (OBin α)) (c : α × α × Bool) : Option α :=
+  let occ := (present src).filter (occupies c)
   if occ.isEmpty then (if nanDefault then none else some 0.0)
-  else some (total (occ.map (share tl tr)))
+  else some (total (occ.map (shareC c)))
 
 /-- `rebin_histogram(src, from_breaks(breaks), nan_default)`. -/
 def rebinOpt (nanDefault : Bool) (src : List (OBin α)) (breaks : List α) : List (Option α) :=
-  (pairs breaks).map fun p => aggregateOpt nanDefault src p.1 p.2
+  (classes breaks).map fun c => aggregateOpt nanDefault src c
 
 def rebinOptBins (nanDefault : Bool) (src : List (OBin α)) (breaks : List α) : List (OBin α) :=
-  (pairs breaks).map fun p => ⟨p.1, p.2, aggregateOpt nanDefault src p.1 p.2⟩
+  (classes breaks).map fun c => ⟨c.1, c.2.1, aggregateOpt nanDefault src c⟩
 
 /-- `np.nansum`: total with NaN counted as nothing. -/
 def ototal (l : List (Option α)) : α := total (l.map fun v => v.getD 0.0)
@@ -297,5 +314,10 @@ def combineOpt (hists : List (List (OBin α))) : List (Bin α) :=
 /-- The pipeline of the `combine_histogram` docstring: every histogram re-binned to one common binning, then combined. -/
 def rebinCombine (nanDefault : Bool) (hists : List (List (OBin α))) (breaks : List α) : List (Bin α) :=
   combineOpt (hists.map fun h => rebinOptBins nanDefault h breaks)
+
+/-- The documented pipeline from collectives to one combined histogram: every collective is histogrammed over its own
+class edges (`range_histogram(edges)`), re-binned to one common binning and the results are combined by sum. -/
+def histRebinCombine (parts : List (List α × List (Row α))) (breaks : List α) : List (Bin α) :=
+  combine (parts.map fun p => rebinBins (binsOf p.1 (rangeHistogram p.1 p.2)) breaks)
 
 end PylifeVerif.Collective
